@@ -682,6 +682,11 @@ func (d *decoderImpl) decodeValue(v reflect.Value) error {
 			return err
 		}
 		if err := decodeRecursiveFields(d2, elem); err != nil {
+			if err == ErrNilValue {
+				// nil marker for a field that has no nil value; it must not be
+				// taken for "this struct is nil" by the caller
+				err = cerrors.Wrap(ErrInvalidFormat, "InvalidFormat(NilField)")
+			}
 			return err
 		}
 		return d.flush()
